@@ -20,21 +20,22 @@ def AgreeD (E : Ext) (classes : List (String × Conv)) (enums : List (String × 
     (∀ cn b, x ≠ .sub cn b) ∧ ∀ n, x.depth < n → intoDynF E classes enums n x = intoC E dyn c x
 
 /-- off the instances of scalar subclasses `dynElem` is the untyped serialiser it wraps -/
-theorem dynElem_notSub {f : Val → Except Exc Val} {x : Val} (h : ∀ cn b, x ≠ .sub cn b) :
+theorem dynElem_notSub (hE : NoElemHook E) {f : Val → Except Exc Val} {x : Val} (h : ∀ cn b, x ≠ .sub cn b) :
     dynElem E f x = f x := by
+  rw [dynElem_noHook hE]
   cases x <;> first | rfl | exact absurd rfl (h _ _)
 
 /-- off the instances of scalar subclasses the element serialiser of `DictConverter.into_data` is the
 element converter's own -/
-theorem anyOr_notSub (c : Conv) {x : Val} (h : ∀ cn b, x ≠ .sub cn b) :
+theorem anyOr_notSub (hE : NoElemHook E) (c : Conv) {x : Val} (h : ∀ cn b, x ≠ .sub cn b) :
     anyOr E dyn c (intoC E dyn c) x = intoC E dyn c x := by
   cases c <;> try rfl
-  cases x <;> first | rfl | exact absurd rfl (h _ _)
+  exact dynElem_notSub hE h
 
-theorem agree_of_id {c} (h : IdGood E dyn N c) : AgreeD E classes enums dyn N c := by
+theorem agree_of_id (hE : NoElemHook E) {c} (h : IdGood E dyn N c) : AgreeD E classes enums dyn N c := by
   intro x hx ht
   obtain ⟨h1, h2, _⟩ := h x hx ht
-  refine ⟨?_, fun n hn => by rw [h1, intoDynF_data E classes enums n x h2 hn]⟩
+  refine ⟨?_, fun n hn => by rw [h1, intoDynF_data E hE classes enums n x h2 hn]⟩
   rintro cn b rfl
   simp [Val.isData] at h2
 
@@ -76,7 +77,7 @@ theorem agree_cond {inner c fmt} (h : AgreeD E classes enums dyn N inner) :
   simp only [intoC]
   exact h y hx ⟨v, hv, hy⟩
 
-theorem agree_seq {kind vc} (hk : seqKinds.contains kind = true) (h : AgreeD E classes enums dyn N vc) :
+theorem agree_seq (hE : NoElemHook E) {kind vc} (hk : seqKinds.contains kind = true) (h : AgreeD E classes enums dyn N vc) :
     AgreeD E classes enums dyn N (.seq kind vc) := by
   rintro x hx ⟨v, hv, ht⟩
   obtain ⟨_, xs, hm, hctor⟩ := trySeq_inv ht
@@ -94,7 +95,7 @@ theorem agree_seq {kind vc} (hk : seqKinds.contains kind = true) (h : AgreeD E c
           exMapM (anyOr E dyn vc (intoC E dyn vc)) x.payload := fun hpay =>
       exMapM_congr _ (fun y hy => by
         obtain ⟨s, a⟩ := h y (Nat.lt_trans (Val.depth_payload hy) hx) (helem y (hpay y hy))
-        rw [dynElem_notSub s, anyOr_notSub vc s]
+        rw [dynElem_notSub hE s, anyOr_notSub hE vc s]
         exact a n (Nat.lt_of_lt_of_le (Val.depth_payload hy) (Nat.le_of_lt_succ hn)))
     rcases seqCtor_cases hk hctor with ⟨rfl, rfl⟩ | ⟨rfl, rfl⟩ | ⟨rfl, rfl⟩ | ⟨rfl, rfl, _⟩ | ⟨rfl, rfl, _⟩
     · have := core (fun y hy => hy)
@@ -117,7 +118,7 @@ def AgreeDs (E : Ext) (classes : List (String × Conv)) (enums : List (String ×
     (dyn : Val → Except Exc Val) (N : Nat) (cs : List Conv) : Prop :=
   ∀ c ∈ cs, AgreeD E classes enums dyn N c
 
-theorem agree_zip (n : Nat) : ∀ (cs : List Conv) (vs xs : List Val),
+theorem agree_zip (hE : NoElemHook E) (n : Nat) : ∀ (cs : List Conv) (vs xs : List Val),
     AgreeDs E classes enums dyn N cs → (∀ u ∈ vs, u.isData = true) → vs.length = cs.length →
     zipMO (tryCs E cs) vs = .ok xs → (∀ y ∈ xs, y.depth < N ∧ y.depth < n) →
     exMapM (dynElem E (intoDynF E classes enums n)) xs = exZip (intoCs E dyn cs) xs
@@ -130,12 +131,12 @@ theorem agree_zip (n : Nat) : ∀ (cs : List Conv) (vs xs : List Val),
     obtain ⟨s1, h1⟩ := hg c (List.mem_cons_self ..) y (hd y (List.mem_cons_self ..)).1
       ⟨u, hv u (List.mem_cons_self ..), hy⟩
     have h1 := h1 n (hd y (List.mem_cons_self ..)).2
-    have h2 := agree_zip n cs vs ys (fun c' hc' => hg c' (List.mem_cons_of_mem _ hc'))
+    have h2 := agree_zip hE n cs vs ys (fun c' hc' => hg c' (List.mem_cons_of_mem _ hc'))
       (fun u' hu' => hv u' (List.mem_cons_of_mem _ hu')) (by simpa using hl) hys
       (fun y' hy' => hd y' (List.mem_cons_of_mem _ hy'))
-    simp only [intoCs, exZip, exMapM, dynElem_notSub s1, h1, h2]
+    simp only [intoCs, exZip, exMapM, dynElem_notSub hE s1, h1, h2]
 
-theorem agree_tuple {cs} (h : AgreeDs E classes enums dyn N cs) :
+theorem agree_tuple (hE : NoElemHook E) {cs} (h : AgreeDs E classes enums dyn N cs) :
     AgreeD E classes enums dyn N (.tuple cs) := by
   rintro x hx ⟨v, hv, ht⟩
   obtain ⟨_, hl, xs, hz, rfl⟩ := tryTuple_inv ht
@@ -143,7 +144,7 @@ theorem agree_tuple {cs} (h : AgreeDs E classes enums dyn N cs) :
   cases n with
   | zero => cases hn
   | succ n =>
-    have := agree_zip n cs v.seqItems xs h (Val.isData_seqItems hv) hl hz (fun y hy =>
+    have := agree_zip hE n cs v.seqItems xs h (Val.isData_seqItems hv) hl hz (fun y hy =>
       ⟨Nat.lt_trans (Val.depth_payload (x := .tuple xs) hy) hx,
        Nat.lt_of_lt_of_le (Val.depth_payload (x := .tuple xs) hy) (Nat.le_of_lt_succ hn)⟩)
     simp only [intoDynF, intoC, this]
@@ -158,7 +159,7 @@ theorem intoDynF_map (n : Nat) (kind : String) (D : List (Val × Val)) :
 theorem dictCtor_notSub (kind : String) (D : List (Val × Val)) : ∀ cn b, dictCtor kind D ≠ .sub cn b := by
   intro cn b; unfold dictCtor; split <;> (intro h; cases h)
 
-theorem agree_dict {kind k vc} (hk : AgreeD E classes enums dyn N k) (hv : AgreeD E classes enums dyn N vc) :
+theorem agree_dict (hE : NoElemHook E) {kind k vc} (hk : AgreeD E classes enums dyn N k) (hv : AgreeD E classes enums dyn N vc) :
     AgreeD E classes enums dyn N (.dict kind k vc) := by
   rintro x hx ⟨v, hvd, ht⟩
   rw [tryC_dict] at ht
@@ -198,7 +199,7 @@ theorem agree_dict {kind k vc} (hk : AgreeD E classes enums dyn N k) (hv : Agree
           obtain ⟨s2, a2⟩ := hv p.2 (Nat.lt_trans hdp.2 hx) ⟨u2.2, (Val.isData_mapItems hvd u2 hu2).2, t2⟩
           have a1 := a1 n (Nat.lt_of_lt_of_le hdp.1 (Nat.le_of_lt_succ hn))
           have a2 := a2 n (Nat.lt_of_lt_of_le hdp.2 (Nat.le_of_lt_succ hn))
-          simp only [dictOne, dynElem_notSub s1, dynElem_notSub s2, anyOr_notSub k s1, anyOr_notSub vc s2, a1, a2]
+          simp only [dictOne, dynElem_notSub hE s1, dynElem_notSub hE s2, anyOr_notSub hE k s1, anyOr_notSub hE vc s2, a1, a2]
         rw [hcongr]
         cases exMapM (dictOne (anyOr E dyn k (intoC E dyn k)) (anyOr E dyn vc (intoC E dyn vc)))
           (Val.dictOfPairs kvs) <;> rfl
@@ -206,24 +207,24 @@ theorem agree_dict {kind k vc} (hk : AgreeD E classes enums dyn N k) (hv : Agree
 mutual
 theorem RTSafeD.agree (hS : ScalarRT E) (hD : DynId dyn N) : (c : Conv) → RTSafe c = true →
     plainConv c = true → AgreeD E classes enums dyn N c
-  | .any, _, _ => agree_of_id (id_any hD)
-  | .noneC, _, _ => agree_of_id (id_noneC hD)
-  | .literal _, _, _ => agree_of_id (id_literal hD)
+  | .any, _, _ => agree_of_id hS.noElemHook (id_any hD)
+  | .noneC, _, _ => agree_of_id hS.noElemHook (id_noneC hD)
+  | .literal _, _, _ => agree_of_id hS.noElemHook (id_literal hD)
   | .scalar .., h, _ => by
     simp only [RTSafe, Bool.or_eq_true] at h
     rcases h with h | h
-    · exact agree_of_id (id_builtin hS.toNumRT h)
+    · exact agree_of_id hS.noElemHook (id_builtin hS.toNumRT h)
     · exact agree_strRow hS h
   | .datetime _, _, _ => agree_datetime hS
   | .seq kind vc, h, hp => by
     simp only [RTSafe, Bool.and_eq_true] at h
-    exact agree_seq h.1 (RTSafeD.agree hS hD vc h.2 (by simpa only [plainConv] using hp))
+    exact agree_seq hS.noElemHook h.1 (RTSafeD.agree hS hD vc h.2 (by simpa only [plainConv] using hp))
   | .tuple cs, h, hp =>
-    agree_tuple (RTSafeD.agrees hS hD cs (by simpa only [RTSafe] using h) (by simpa only [plainConv] using hp))
+    agree_tuple hS.noElemHook (RTSafeD.agrees hS hD cs (by simpa only [RTSafe] using h) (by simpa only [plainConv] using hp))
   | .dict _ k v, h, hp => by
     simp only [RTSafe, Bool.and_eq_true] at h
     simp only [plainConv, Bool.and_eq_true] at hp
-    exact agree_dict (agree_of_id (IdSer.good hS.toNumRT hD k h.1)) (RTSafeD.agree hS hD v h.2 hp.2)
+    exact agree_dict hS.noElemHook (agree_of_id hS.noElemHook (IdSer.good hS.toNumRT hD k h.1)) (RTSafeD.agree hS hD v h.2 hp.2)
   | .cond inner _ _, h, hp =>
     agree_cond (RTSafeD.agree hS hD inner (by simpa only [RTSafe] using h) (by simpa only [plainConv] using hp))
   | .union _, _, hp | .pane _ _, _, hp => by simp only [plainConv] at hp; cases hp
